@@ -50,6 +50,12 @@ CLAIMED["C16"] = dict(text="Bounded symbolic model checking of the real NonBondE
                   "distance properties are discharged over symbolic reals.",
              design="DESIGN.md 4/C16", technique="symbolic execution of the real Python code with z3 (symx): selector-driven histories on real scipy KD-trees, QF_NRA obligations for the force law and minimum image",
              note="scipy KD-trees trusted (run concretely on catalogue points); add only on unpositioned residues (precondition of every caller); reals not floats. " + NOTE_COMMON)
+CLAIMED["C05"] = dict(text="Bounded symbolic model checking of the real placement code as five lemmas: _take_step/pbc_complete with symbolic point, unit vector and step "
+                  "length (in box; minimum-image distance == step), the step length handed down by update_positions with the real interaction matrix over "
+                  "symbolic sizes, the acceptance logic with every predicate outcome symbolic per trial, the overlap rule (0.1 nm floor incl. bonded neighbours, "
+                  "force summed over exactly the non-excluded residues of all trees) with symbolic neighbour distances, and the start on a grid point.",
+             design="DESIGN.md 4/C05", technique="symbolic execution of the real Python code with z3 (symx): QF_NRA obligations for the step, symbolic booleans for the acceptance logic, contract stub for the KD-tree query",
+             note="scipy's sparse_distance_matrix replaced by its contract; step <= half the shortest box edge assumed; boxes from a catalogue; reals not floats; the lemmas compose through the real control flow of update_positions (read, not executed end to end). " + NOTE_COMMON)
 NOT_YET = {}
 def main():
     props = [json.loads(l) for l in open(os.path.join(ROOT, "properties.jsonl"))]
